@@ -258,8 +258,14 @@ def run_enum(case):
 def run_case(case):
     if case.get("type") == "enum":
         return run_enum(case)
+    fresh = not case.get("cfg")
     cfg = case.get("cfg") or (make_cfg(case["seed"], case["i"]) if case.get("type", "wide") == "wide"
                               else make_active_cfg(case["seed"], case["i"]))
+    if fresh and case["i"] % 13 == 5 and not cfg["args"].get("scaling_within_bounds"):
+        # integer-typed start (np.array([0, 2, -1])), usually outside bounds that are not integers: it has to be moved ONTO the bound
+        cfg["x0"] = np.rint(np.array(cfg["x0"], dtype=float)).tolist()
+        cfg["_x0_int"] = True
+        cfg["_family"] = (cfg.get("_family") or "wide") + "+int-x0"
     case["cfg"] = cfg
     run = gen.run_cfg(cfg, timeout=CASE_TIMEOUT["quick"])
     b = run.built
